@@ -26,6 +26,10 @@ func (c *clientPool) setPool(nodeID uint64, p Pool) {
 }
 
 func (c *clientPool) getPool(nodeID uint64) (Pool, bool) {
+	if c == nil {
+		// the owner was closed
+		return nil, false
+	}
 	c.mu.RLock()
 	p, ok := c.pool[nodeID]
 	c.mu.RUnlock()
